@@ -311,10 +311,16 @@ def _diff(what, ref, got, cfg, seed):
     return (f"{what}: trace diverges at event {n}: reference {ref[n:n + 2]}, got {got[n:n + 2]} (seed {seed}, config {cfg})")
 
 
+class LabelSeed(str):
+    """a seed that is a str subclass (e.g. a label type / a str-valued Enum member)"""
+
+
 def digests_for(configs):
     out = []
     for c in configs:
         seed = c["seed"]
+        if isinstance(seed, str) and seed.startswith("label:"):
+            seed = LabelSeed(seed[6:])
         if isinstance(seed, str):
             # beyond the documented type (int) but accepted by random.Random deterministically; if a tree rejects such seeds
             # that is not a reproducibility violation, so the rejection itself is the (stable) outcome
@@ -367,7 +373,7 @@ def strategy(tier):
                                   "systems": kinds.map(lambda k: ["picker", "shuffler", "shuffler_both", "picker_both"] + k[:2]), "steps": st.integers(5, 12),
                                   "complete_at": st.sampled_from([None, None, 3])})
     one = wone_of(st.fixed_dictionaries({"seed": seeds, "cfg": cfg}), st.fixed_dictionaries({"seed": big, "cfg": rich}),
-                  st.fixed_dictionaries({"seed": st.sampled_from(["experiment-A", "", "run 7", "\u00e9"]), "cfg": rich}),
+                  st.fixed_dictionaries({"seed": st.sampled_from(["experiment-A", "", "run 7", "\u00e9", "label:experiment-B", "label:x"]), "cfg": rich}),
                   st.fixed_dictionaries({"seed": seeds, "cfg": rich}))
     hashs = st.fixed_dictionaries({"kind": st.just("hashseed"), "configs": st.lists(one, min_size=8, max_size=8),
                                    "hashseeds": st.lists(wone_of(st.sampled_from([1, 4242]), st.integers(2, 2 ** 32 - 1)), min_size=2, max_size=3)})
